@@ -573,14 +573,15 @@ def c02(sc, V):
         enabling = s.kind() == "start" or (s.kind() == "sig" and s.op[1] == "reload") or \
             s.cmd() in ("start", "restart", "reload", "add", "reloadconfig") or \
             (s.kind() == "wake" and s.before.slot in STARTISH)
-        if s.kind() == "sockev" and s.op[1]:
-            sock_seen = True
+        if s.kind() == "sockev":
+            sock_seen = bool(s.op[1])
         if not enabling:
             for l in s.lines:
                 if l[0] == "spawn":
                     w = next((w for w in s.before.watchers if w["name"].replace(" ", "_") == l[2]), None)
-                    if w is not None and sock_seen and any(c.get("on_demand") and c["name"] == w["name"] for c in sc["watchers"]):
-                        continue          # "or a socket event arrives for an on-demand watcher"
+                    if w is not None and sock_seen and (s.kind() == "check" or s.before.slot == "manage_watchers") and \
+                            any(c.get("on_demand") and c["name"] == w["name"] for c in sc["watchers"]):
+                        continue          # "or a socket event arrives for an on-demand watcher": seen by the periodic check
                     if w is not None and w["status"] == "stopped":
                         f.append({"sig": "spawn-for-stopped-watcher", "step": s.n,
                                   "msg": "op %r spawned %d for stopped watcher %s" % (s.op, l[1], l[2])})
